@@ -32,7 +32,8 @@ LEVEL_TEXT = ("Partial. Unbounded proof: for every byte string (and start positi
               "offset - string, type, proto and field id tables, string data items, code items with their try items and handler "
               "lists, encoded arrays and annotation items (the value reader of C04, nested to any depth), class data items (the reader of C05), type lists, annotation set ref lists, annotation set items, annotations directories, in the load order "
               "of C07) ends on EVERY byte string and offset, a map that is read has at most one item per "
-              "twelve bytes, and the model is compared with the real MapList on generated and damaged maps. Not proved: "
+              "twelve bytes, and the model is compared with the real MapList on generated and damaged maps (the kinds of the items, and the "
+              "position at which every object of every section starts). Not proved: "
               "termination of the sections that are not modelled as part of that walk (method ids and class definitions - fixed "
               "records read with look-ups in the other tables -, and debug info and hidden API data as sections of "
               "the map: their readers have the theorems above) and of the zip layer; they are run on "
@@ -362,7 +363,7 @@ STREAMS = [
 # method ids are left out: MethodIdItem resolves its prototype while it is read and fails with AttributeError / KeyError on an index
 # the other tables do not cover (no loop is involved; the model has no cross references)
 MAP_KINDS = [0x0001, 0x0002, 0x0003, 0x0004, 0x1001, 0x1002, 0x1003, 0x2006, 0x1000, 0x2001, 0x2001, 0x2002, 0x2002, 0x0007, 0x0008,
-             0x2004, 0x2004, 0x2005, 0x2005, 0x2000, 0x2000]
+             0x2004, 0x2004, 0x2005, 0x2005, 0x2000, 0x2000, 0x1001, 0x1002, 0x1003, 0x2006]
 
 
 def rand_value(rng, depth):
@@ -515,8 +516,8 @@ def gen_map(rng, tier, ctx):
         # (the map is always read where it was written: bytes read as a map somewhere else name kinds whose readers look other
         # tables up - KeyError in the code, outside the model; an offset behind the end is covered by the cut maps)
         return (raw, moff if rng.random() < 0.9 else len(raw) + rng.randrange(0, 3))
-    for _ in range(600 if tier == "thorough" else 120):
-        cases.append(build(rng.randint(0, 6), rng.choice((0, 16, 64, 200)), rng.random() < 0.5))
+    for _ in range(900 if tier == "thorough" else 300):
+        cases.append(build(rng.randint(0, 6), rng.choice((0, 16, 64, 200, 200)), rng.random() < 0.4))
     return cases
 
 
@@ -533,13 +534,10 @@ def impl_map(case):
     for mi in ml.map_item:
         it = mi.get_item()
         if it is ml:
-            n = 0
-        elif isinstance(it, list):
-            n = len(it)
-        else:
-            inner = [getattr(it, a) for a in ("type", "proto", "field_id_items", "method_id_items", "code") if isinstance(getattr(it, a, None), list)]
-            n = len(inner[0])
-        out.append([int(mi.get_type()), mi.get_size(), mi.get_offset(), n])
+            it = []
+        elif not isinstance(it, list):
+            it = [getattr(it, a) for a in ("type", "proto", "field_id_items", "method_id_items", "code") if isinstance(getattr(it, a, None), list)][0]
+        out.append([int(mi.get_type()), mi.get_size(), mi.get_offset(), [i.offset for i in it]])      # where every object of the section starts
     return out
 
 
@@ -552,7 +550,10 @@ def oracle_map(case, res):
     raw, off = case
     if 12 * len(res) + 4 > len(raw):
         return "%d map items read from %d bytes" % (len(res), len(raw))
-    for ty, count, o, n in res:
+    for ty, count, o, starts in res:
+        n = len(starts)
+        if starts != sorted(set(starts)) or any(not 0 <= s < len(raw) for s in starts):
+            return "section of type 0x%04x: the objects start at %r in a file of %d bytes" % (ty, starts, len(raw))
         if n > len(raw) or n > count:
             return "section of type 0x%04x: %d objects from a count of %d and %d bytes" % (ty, n, count, len(raw))
     return None
@@ -563,6 +564,6 @@ STREAMS.insert(4, {"name": "map-list", "gen": gen_map, "impl": impl_map, "coq_he
                    "pinned": False, "shard": 60, "oracle": oracle_map, "case_timeout": 20,
                    "stats": lambda cases, results: {"files": len(cases), "parsed": sum(1 for r in results if not isinstance(r, Err)),
                                                     "sections": sum(len(r) for r in results if not isinstance(r, Err)),
-                                                    "objects": sum(sum(x[3] for x in r) for r in results if not isinstance(r, Err)),
+                                                    "objects": sum(sum(len(x[3]) for x in r) for r in results if not isinstance(r, Err)),
                                                     "struct_errors": sum(1 for r in results if isinstance(r, Err) and r.name == "StructError"),
                                                     "value_errors": sum(1 for r in results if isinstance(r, Err) and r.name == "ValueError")}})
